@@ -55,4 +55,6 @@ class TsvProjectIo(ProjectIoInterface):
             format_name="csv",
             sep="\t",
             replace_infinfinity=replace_infinfinity,
+            # Overwrite protection was already handled by the calling save_parameters.
+            allow_overwrite=True,
         )
